@@ -2,7 +2,7 @@
 """Ingest independently produced breaking changes from /tmp/seedwork/<Cnn>/ :
 verify each (compiles, demo fails with / passes without, optionally full suite passes with),
 run every property check against it, and store it under /verif/seeded/<Cnn>-<A|B>/.
-usage: seed_ingest.py Cnn [--suite]"""
+usage: [SEEDWORK=/tmp/seedwork2 SEED_RENAME=A=C,B=D] seed_ingest.py Cnn [--suite]"""
 import json, os, shutil, subprocess, sys, tempfile
 ENV = dict(os.environ, GOFLAGS="-mod=mod", GOPROXY="off", GOSUMDB="off", GOTOOLCHAIN="local", GOWORK="off")
 V = "/verif"
@@ -12,7 +12,8 @@ def sh(cmd, cwd=None, timeout=1800):
 def main():
     pid = sys.argv[1]
     suite = "--suite" in sys.argv
-    src = "/tmp/seedwork/%s" % pid
+    src = "%s/%s" % (os.environ.get("SEEDWORK", "/tmp/seedwork"), pid)
+    rename = dict(x.split("=") for x in os.environ.get("SEED_RENAME", "").split(",") if x)  # e.g. A=C,B=D for a second round
     meta = json.load(open(src + "/seeded_meta.json"))
     props = ["C%02d" % i for i in range(1, 21)]
     for k in sorted(meta):
@@ -63,12 +64,13 @@ def main():
             res["caught_by"] = caught
             valid = rc0 == 0 and rcb == 0 and rc1 != 0
             res["valid"] = valid
-            out_dir = "%s/seeded/%s-%s" % (V, pid, k)
+            kk = rename.get(k, k)
+            out_dir = "%s/seeded/%s-%s" % (V, pid, kk)
             os.makedirs(out_dir, exist_ok=True)
             shutil.copy(diff, out_dir + "/patch.diff")
             for d in demos:
                 shutil.copy(os.path.join(src, d), out_dir + "/" + os.path.basename(d))
-            json.dump({"property": pid, "variant": k, "summary": m.get("summary"), "breaks": m.get("breaks"), "needs": m.get("needs"),
+            json.dump({"property": pid, "variant": kk, "summary": m.get("summary"), "breaks": m.get("breaks"), "needs": m.get("needs"),
                        "demo_file": [os.path.basename(d) for d in demos], "demo_cmd": cmd, "demo_fails_with": m.get("demo_fails_with"),
                        "verification": res,
                        "what_i_ran": "rsync of /repo to a scratch dir; demo on the clean copy (must pass); git apply patch.diff; go build; demo again (must fail); optional full suite without the demo files; raftcheck for every property against the mutated copy"},
